@@ -21,15 +21,18 @@ func Check() *common.Check {
 	return &common.Check{
 		ID:    "C19",
 		Level: "fault_enumeration",
-		Rule: "verdict space: every non-empty set of <=3 files (quick: canonical order, pairs in both orders; thorough: every arrangement) of the six classes " +
-			"{valid, unformatted, formatted, invalid, empty, comment-only} (+ dialect/tokenizer/strict/blank/sub-directory classes for validate, severity classes for lint), " +
-			"as files, as stdin and as inline SQL, x format styles {none, --compact, --no-uppercase, --uppercase=false, --indent 0/4, --max-line} (singles; all compatible pairs) " +
-			"each run as stdout / --check / -i / --check-after--i / -o, x format mode pairs, x validate {text,json,sarif} x {--strict,--quiet,--dialect mysql,--output-file,--stats} (singles; thorough: pairs), " +
-			"x lint {--auto-fix,--fail-on-warn,--max-length} (singles and pairs), x parse {-f json/yaml/table, --tree, --ast, --tokens}; " +
-			"crash-point space: for each in-place scenario (format -i, lint --auto-fix; small and large file; thorough: multi-file and styled) RLIMIT_FSIZE=k for EVERY k in [0,n] " +
-			"(n = size of the new content), once as short write + EFBIG and once as SIGKILL at the moment byte k+1 is refused; thorough: strace error=EIO and signal=KILL at every n-th " +
-			"openat/write/fsync/rename*/close/chmod/unlink of the run. One case = one CLI scenario (1..8 process runs). " +
-			"Non-trivial = the scenario contains an input the library rejects or a file that formatting/fixing changes, or (crash points) the fault actually fired.",
+		Rule: "verdict space: file sets = every non-empty set of <=3 files of the six classes {valid, unformatted, formatted, invalid, empty, comment-only} " +
+			"(+ a named-but-missing file; + mysql-only / tokenizer-error / empty-statement / blank / sub-directory classes for validate; + warning / error / info / clean severity classes for lint), " +
+			"each also as stdin and as inline SQL; format: styles {none, --compact, --no-uppercase, --uppercase=false, --indent 0, --indent 4, --max-line 20} and all 13 compatible pairs, every (style, set) run five times " +
+			"(stdout, --check, -i, --check after -i, -o file) and compared, plus mode pairs {-i --check, -i -o, --check -o, -i -v, --check -v, -v}; validate: {text,json,sarif} x {none,--strict,--quiet,--check,--dialect mysql,--output-file,--stats}; " +
+			"lint: {none,--auto-fix,--fail-on-warn,--max-length 20,-o file} and pairs; parse: {-f json,-f yaml,-f table,--tree,--ast,none,--tokens}. " +
+			"quick: all 41 canonical sets (+ reversed pairs) under the default style and --compact, single classes and two triples under the other styles, style pairs on two classes, sets of <=2 for modes/validate/lint; " +
+			"thorough: every arrangement (156) of every set under all 20 styles and 6 mode pairs, validate with all modifier pairs on all arrangements, lint on every set of <=3 of 12 classes. " +
+			"crash-point space: for each in-place scenario (format -i and lint --auto-fix on a small and a large file; thorough also multi-file with a rejected file in the middle, --compact, --indent 4 --uppercase=false) " +
+			"RLIMIT_FSIZE=k for EVERY k in [0,n], n = size of the complete new content, once as short write + EFBIG and once as SIGKILL at the moment byte k+1 is refused (tools/fsize); " +
+			"thorough: strace inject error=EIO and signal=KILL at the 1st, 2nd, ... occurrence (until one is not reached) of each of 17 system calls (openat, read, write, fsync, rename*, close, chmod*, unlink*, ...) of the run. " +
+			"One case = one CLI scenario (1..8 process runs; counters.process_runs). Non-trivial = the scenario contains an input the library rejects / a failing lint finding, " +
+			"or a file that formatting or fixing changes, or (crash points) the fault actually fired.",
 		Assume: []string{
 			"RLIMIT_FSIZE semantics of this kernel (short write at the limit, then EFBIG+SIGXFSZ), ptrace signal interception by tools/fsize, strace syscall injection",
 			"library verdict = parser.Validate[WithDialect] and gosqlx.Validate agreeing; where the library's own entry points disagree (empty/blank input) or strict and non-strict parsing disagree under --strict, no exit-status clause is evaluated",
@@ -91,7 +94,7 @@ func exitOracle(c *common.Ctx, cmd, flagClass, mode string, ov verdict, r result
 func untouched(c *common.Ctx, sb *sandbox, files []file, sig, desc string) bool {
 	ok := true
 	for _, f := range files {
-		if d := sb.touched(f.Name, f.Content); d != "" {
+		if d := sb.touchedFile(f); d != "" {
 			c.Fail(sig, fmt.Sprintf("a mode that must not modify files modified %s (%s): %s\n%s", f.Name, f.Class, d, desc))
 			ok = false
 		}
@@ -120,10 +123,18 @@ func concatMatches(s string, parts []string) bool {
 	return false
 }
 
+// fileVerdict is libVerdict for an input file.
+func fileVerdict(f file, dialect string) verdict {
+	if f.missing() {
+		return reject
+	}
+	return libVerdict(f.Content, dialect)
+}
+
 func verdicts(files []file, dialect string) ([]verdict, verdict) {
 	var vs []verdict
 	for _, f := range files {
-		vs = append(vs, libVerdict(f.Content, dialect))
+		vs = append(vs, fileVerdict(f, dialect))
 	}
 	return vs, overall(vs)
 }
